@@ -53,6 +53,13 @@ CHECKS["C03"] = ("TaskGraph", "TLC model check of the closure + Kahn model over 
                  "5-8 task graphs, each repeated so the map order inside the sort varies; TLC evaluates Allowed_C03 on every record.",
                  TB + "map-iteration order sampled by repetition; commands replaced by a recording runner.", "5 C03")
 
+CHECKS["C05"] = ("Glob", "declarative glob semantics in TLA+ (model-checked frame properties) used as oracle: TLC evaluates Conforms_C05 over the real "
+                 "expansion of every tree of a path pool x every pattern of a pattern pool",
+                 "Glob.tla defines what a pattern denotes (segment wildcards, **, alternation, the leading-dot rule); TLC checks the semantics' own "
+                 "frame properties over every tree x pattern of a sub-pool. Every subset of a 10 (quick) / 12 (thorough) path pool is built on disk and "
+                 "every one of 24 patterns expanded twice through SpokFile.Run; TLC compares each real expansion with Glob!Expand and the two "
+                 "expansions with each other.", TB + "the transcription of doublestar's matching rules in Glob.tla (validated on the pool).", "5 C05")
+
 NOT_YET = {}
 
 
